@@ -377,6 +377,10 @@ func RunMPTBulk(w *tr.Writer, st *MPTStats, tid int, r *rand.Rand) {
 	n := 200 + r.Intn(500)
 	want := map[string][]byte{}
 	for i := 0; i < n; i++ {
+		if i == n/2 && tid%2 == 0 {
+			// the same trie object goes on at a later version: its change set then holds nodes of two origins
+			env.Trie.SetVersion(util.Sequence(env.Version + 3))
+		}
 		p := make([]byte, 2*(1+r.Intn(4)))
 		for j := range p {
 			p[j] = "0123456789abcdef"[r.Intn(16)]
